@@ -768,6 +768,85 @@ enum Small {
     C,
 }
 
+/// A map of known length written with separate `serialize_key` / `serialize_value` calls.
+#[derive(Debug, PartialEq, Clone)]
+struct SplitMap(BTreeMap<String, u16>);
+impl Serialize for SplitMap {
+    fn serialize<S: serde::Serializer>(&self, s: S) -> Result<S::Ok, S::Error> {
+        use serde::ser::SerializeMap;
+        let mut m = s.serialize_map(Some(self.0.len()))?;
+        for (k, v) in &self.0 {
+            m.serialize_key(k)?;
+            m.serialize_value(v)?;
+        }
+        m.end()
+    }
+}
+
+#[derive(Serialize, Deserialize, Debug, PartialEq, Clone)]
+enum InnerExt {
+    S { a: u8, b: Option<i16> },
+    T(u8, String),
+    N(u32),
+}
+
+/// Internally tagged enum whose newtype variants wrap externally tagged tuple / struct variants
+/// (serde's tagged serializer drives the map with split key / value calls).
+#[derive(Serialize, Deserialize, Debug, PartialEq, Clone)]
+#[serde(tag = "t")]
+enum TaggedWrap {
+    W(InnerExt),
+    P { x: u8 },
+}
+
+fn split_map_case(rep: &mut Report, seed: u64, i: u64) {
+    let mut rng = Rng::derive("c17/splitmap", seed, 0, i);
+    let rp = vec!["c17".into(), "--seed".into(), seed.to_string(), "--replay".into(), "SplitMap".into(), i.to_string()];
+    rep.eval();
+    let mut m = BTreeMap::new();
+    for _ in 0..rng.below(5) {
+        m.insert(g::<String>(&mut rng), rng.next_u32() as u16);
+    }
+    let v = SplitMap(m.clone());
+    let want = Item::map(m.iter().map(|(k, x)| (Item::text(k), Item::uint(*x as u64))).collect()).encode();
+    let r = mon::guarded(|| {
+        let b = minicbor_serde::to_vec(&v).map_err(|e| format!("serialising failed: {}", e))?;
+        if b != want {
+            return Err(format!("representation {} != {}", hex(&b[..b.len().min(80)]), hex(&want[..want.len().min(80)])));
+        }
+        let w: BTreeMap<String, u16> = minicbor_serde::from_slice(&b).map_err(|e| e.to_string())?;
+        if w != m {
+            return Err("value differs".into());
+        }
+        Ok(())
+    });
+    match r {
+        Err(p) => viol(rep, "SplitMap", "panic", "", p.message, &[], &rp),
+        Ok(Err(e)) => viol(rep, "SplitMap", "roundtrip", "", e, &[], &rp),
+        Ok(Ok(())) => rep.count("map written with split key / value calls"),
+    }
+    rep.eval();
+    let tw = match rng.below(4) {
+        0 => TaggedWrap::W(InnerExt::S { a: rng.next_u32() as u8, b: if rng.bool() { Some(rng.next_u32() as i16) } else { None } }),
+        1 => TaggedWrap::W(InnerExt::T(rng.next_u32() as u8, g::<String>(&mut rng))),
+        2 => TaggedWrap::P { x: rng.next_u32() as u8 },
+        _ => TaggedWrap::W(InnerExt::S { a: 0, b: None }),
+    };
+    let r = mon::guarded(|| {
+        let b = minicbor_serde::to_vec(&tw).map_err(|e| format!("serialising failed: {}", e))?;
+        let w: TaggedWrap = minicbor_serde::from_slice(&b).map_err(|e| format!("deserialising {} failed: {}", hex(&b[..b.len().min(60)]), e))?;
+        if w != tw {
+            return Err(format!("value differs: {:?}", w));
+        }
+        Ok(())
+    });
+    match r {
+        Err(p) => viol(rep, "TaggedWrap", "panic", "", p.message, &[], &rp),
+        Ok(Err(e)) => viol(rep, "TaggedWrap", "roundtrip", "", format!("{:?}: {}", tw, e), &[], &rp),
+        Ok(Ok(())) => rep.count("internally tagged newtype variant around an externally tagged variant"),
+    }
+}
+
 fn nested_and_long_case(rep: &mut Report, seed: u64, i: u64) {
     let mut rng = Rng::derive("c17/nested-long", seed, 0, i);
     let rp = vec!["c17".into(), "--seed".into(), seed.to_string(), "--replay".into(), "NestedLong".into(), i.to_string()];
@@ -916,6 +995,7 @@ pub fn run(a: &Args, rep: &mut Report) {
             borrowed_any_case(rep, a.seed, i);
             collect_str_case(rep, a.seed, i);
             nested_and_long_case(rep, a.seed, i);
+            split_map_case(rep, a.seed, i);
         }
     }
 }
@@ -925,6 +1005,9 @@ pub fn replay(a: &Args, rep: &mut Report) {
     let i: u64 = a.replay[1].parse().unwrap();
     if want == "Borrowed" {
         return borrowed_case(rep, a.seed, i);
+    }
+    if want == "SplitMap" {
+        return split_map_case(rep, a.seed, i);
     }
     if want == "NestedLong" {
         return nested_and_long_case(rep, a.seed, i);
